@@ -73,6 +73,7 @@ CLASSES = [
     ('UMap', uc.UMap, 'map'),
     ('UIterable', uc.UIterable, 'iterable'),
     ('UIterator', uc.UIterator, 'iter1'),
+    ('USizedIterator', uc.USizedIterator, 'iter1'),
     ('UContainer', uc.UContainer, 'plain'),
     ('UReversible', uc.UReversible, 'iterable'),
     ('UGenList', uc.UGenList, 'seq'),
@@ -101,7 +102,7 @@ EXTRA_DENOTABLE = [
 HASHABLE_ATOMS = ['object', 'int', 'bool', 'float', 'complex', 'str', 'bytes', 'NoneType',
                   'function', 'UA', 'UB', 'UC', 'UH', 'UImpl', 'UContainer', 'UGenPlain',
                   'EColor', 'ENum', 'type', 'ABCMeta', 'ProtocolMeta', 'range',
-                  'UIterable', 'UIterator', 'UReversible', 'list_iterator', 'generator',
+                  'UIterable', 'UIterator', 'USizedIterator', 'UReversible', 'list_iterator', 'generator',
                   'USeq', 'UColl', 'UMap', 'dict_keys', 'dict_items', 'dict_values']
 HASHABLE_DEEP = ['tuple', 'frozenset']
 NEEDS_HASHABLE_ITEMS = ['set', 'frozenset', 'dict', 'defaultdict', 'OrderedDict', 'Counter',
@@ -564,6 +565,12 @@ class Universe:
         c.append(z3.Implies(U.sized(t), U.truthy(t) == (U.len(t) != 0)))
         c.append(z3.Implies(U.cls(t) == K['NoneType'], z3.Not(U.truthy(t))))
         c.append(z3.Implies(U.is_numeric_int(t), U.truthy(t) == (U.ival(t) != 0)))
+        c.append(z3.Implies(U.kind_in(t, ('float', 'complex')), U.truthy(t) == (U.fval(t) != 0)))
+        # objects defining neither __bool__ nor __len__ are always true
+        always = [n for n in NAMES if KIND[n] != 'meta' and not hasattr(PYCLS[n], '__len__')
+                  and not hasattr(PYCLS[n], '__bool__') and KIND[n] not in ('int', 'bool', 'float', 'complex', 'none', 'intenum')]
+        always += [n for n in NAMES if KIND[n] == 'meta']
+        c.append(z3.Implies(U.in_classes(t, always), U.truthy(t)))
         # known string constants fix the length
         for s, code in STR_CONSTS.items():
             c.append(z3.Implies(z3.And(U.cls(t) == K['str'], U.sval(t) == code), U.len(t) == len(s)))
